@@ -44,6 +44,24 @@ class C09(Oracle):
             if pre.key() != post.key():
                 v.append((f"C09/read-only-changed", f"{k} ({out.brief()}) changed the sequence: {_diff(pre, post)}"))
             return v
+        if k in ops.FORK:
+            if pre.key() != post.key():
+                v.append(("C09/read-only-changed", f"rebuilding a copy from the call log changed the sequence: {_diff(pre, post)}"))
+            r = out.value if out.ok else None
+            cell = (tag or "fork").replace("bad/", "")
+            if not isinstance(r, dict) or r.get("status") != "done":
+                ctx.stats[f"matrix/fork/{cell}/{(r or {}).get('status', 'raised')}"] += 1
+                return v
+            fout = r["out"]
+            if fout.ok:
+                ctx.stats[f"matrix/fork/{cell}/accepted"] += 1
+                return v
+            same = r["pre"].key() == r["post"].key()
+            ctx.stats[f"matrix/refused/{cell}/{'same' if same else 'CHANGED'}"] += 1
+            ctx.probe("fork_refused_after_prelude")
+            if not same:
+                v.append(("C09/refused-call-changed", f"after {[o['op'] for o in op['prelude']]} on a copy, {op['bad']['op']} raised {fout.exc_type} ({(fout.exc_msg or '')[:80]}) but changed the sequence: {_diff(r['pre'], r['post'])} [{cell}]"))
+            return v
         if k in ops.CACHE:
             return v
         if k in ops.RESTART:
@@ -75,6 +93,43 @@ class C09(Oracle):
         elif kind == "bad":
             ctx.stats[f"matrix/accepted-bad/{tag}"] += 1
         return v
+
+
+class Twin(Oracle):
+    """The sequence is a function of its record of successful calls, checked
+    continuously: a twin receives ONLY the successful timeline-changing calls
+    and restarts (no read-only call, no refused call, no cache flush). After
+    each of them the twin must have accepted the call and hold the same state.
+    Hidden state left behind by a query or by a refused call shows up here as
+    soon as it influences scheduling, not only at the next restart."""
+
+    def begin(self, ctx, snap):
+        self.twin = ops.SUT(ctx.world)
+        self.dead = False
+
+    def step(self, ctx, i, op, pre, out, post, tag):
+        k = op["op"]
+        if self.dead or not out.ok or not (k in ops.MUTATING or k in ops.RESTART):
+            return ()
+        tout = ops.issue(self.twin, op)
+        if not tout.ok:
+            self.dead = True
+            return [("C09/twin-refused", f"{k} was accepted by the sequence under test but refused ({tout.exc_type}: {(tout.exc_msg or '')[:80]}) by a twin that received the same successful calls and none of the read-only / refused ones")]
+        from .. import observe
+
+        ts = observe.snapshot(self.twin.seq)
+        ctx.stats["twin_compared"] += 1
+        same = ts.timeline_key() == post.timeline_key() and ts.phase_key() == post.phase_key()
+        fl = ("measured", "measure_basis", "in_xy", "in_ising", "slm_targets", "mag_field", "parametrized", "empty")
+        if same and any(ts.flags[x] != post.flags[x] for x in fl):
+            self.dead = True
+            return [("C09/twin-diverged", f"after {k} the flags differ from the twin's: { {x: (post.flags[x], ts.flags[x]) for x in fl if ts.flags[x] != post.flags[x]} }")]
+        if not same:
+            self.dead = True
+            return [("C09/twin-diverged", f"after {k} the sequence differs from a twin that received the same successful calls and none of the read-only / refused ones: {_diff(ts, post)}")]
+        if ctx.notes.get("refused_since_restart") or ctx.stats.get("fault/observe/fired", 0):
+            ctx.probe("twin_compared_after_faults")
+        return ()
 
 
 class Relabel(Oracle):
